@@ -186,6 +186,11 @@ func verifHarnessCrash() {
 			}
 		}
 	}
+	if verifParam("premerge") == 1 {
+		// an earlier merge generation: the pre-puts are merged and adopted (leaving merged files and a hint
+		// file in the data directory) before the history under test
+		plan = append(plan, &vPlanned{kind: vOpMerge}, &vPlanned{kind: vOpRestart})
+	}
 	plan = append(plan, body...)
 	if tail := verifParam("tailops"); tail != 0 {
 		// fixed suffix, e.g. Merge then Restart (adoption) for C07
